@@ -119,7 +119,9 @@ Inductive item : Type :=
 Inductive tnode : Type :=
 | TSys (o : wout)            (* system_message *)
 | TOther (x : str)
-| TRef (text : option str) (msg : option wout) (fallback : option str).  (* <reference> and its children *)
+| TRef (text : option str) (msg : option wout) (fallback : option str) (target : str).
+                             (* <reference refid=target> and its children: explicit text, the appended
+                                system_message, the fallback text "#target" *)
 
 Definition c_hash : N := 35.
 
@@ -143,7 +145,7 @@ Fixpoint run (fe : frontend) (suppress : list str) (items : list item) : list wo
                       | _, _ => None
                       end in
       let '(log, tree) := run fe suppress rest in
-      (l1 ++ log, TRef text node fallback :: tree)
+      (l1 ++ log, TRef text node fallback target :: tree)
   end.
 
 (* ---------------- specification ---------------- *)
@@ -176,11 +178,37 @@ Fixpoint strip_tree (suppress : list str) (tree : list tnode) : list tnode :=
   | TSys o :: rest =>
       if out_matches suppress o then strip_tree suppress rest else TSys o :: strip_tree suppress rest
   | TOther x :: rest => TOther x :: strip_tree suppress rest
-  | TRef text msg fb :: rest => TRef text (strip_opt suppress msg) fb :: strip_tree suppress rest
+  | TRef text msg fb tgt :: rest => TRef text (strip_opt suppress msg) fb tgt :: strip_tree suppress rest
   end.
 
 Definition strip (suppress : list str) (out : list wout * list tnode) : list wout * list tnode :=
   (strip_log suppress (fst out), strip_tree suppress (snd out)).
+
+(* The exact effect of suppression including the one coupling in the code (open finding): taking the
+   system_message out of a reference that has no explicit text makes the fallback text "#target" appear,
+   because ResolveAnchorIds decides about the fallback after appending the warning. *)
+Definition strip_ref (suppress : list str) (text : option str) (msg : option wout) (fb : option str)
+           (tgt : str) : tnode :=
+  match msg with
+  | Some o =>
+      if out_matches suppress o
+      then TRef text None (match text with None => Some (c_hash :: tgt) | Some _ => fb end) tgt
+      else TRef text msg fb tgt
+  | None => TRef text msg fb tgt
+  end.
+
+Fixpoint strip_tree_coupled (suppress : list str) (tree : list tnode) : list tnode :=
+  match tree with
+  | [] => []
+  | TSys o :: rest =>
+      if out_matches suppress o then strip_tree_coupled suppress rest
+      else TSys o :: strip_tree_coupled suppress rest
+  | TOther x :: rest => TOther x :: strip_tree_coupled suppress rest
+  | TRef text msg fb tgt :: rest => strip_ref suppress text msg fb tgt :: strip_tree_coupled suppress rest
+  end.
+
+Definition strip_coupled (suppress : list str) (out : list wout * list tnode) : list wout * list tnode :=
+  (strip_log suppress (fst out), strip_tree_coupled suppress (snd out)).
 
 Definition nodot (s : str) : bool := negb (mem_N c_dot s).
 
